@@ -202,6 +202,8 @@ class State:
         conds = [c.e if isinstance(c, SBool) else (z3.BoolVal(c) if isinstance(c, bool) else c) for c in conds]
         if self.pos < len(self.decisions):
             i = self.decisions[self.pos][0]
+            if i >= len(conds):
+                raise RuntimeError(f"replay divergence: recorded choice {i} of a {len(conds)}-way fork (non-deterministic execution)")
         else:
             feas = []
             for i, c in enumerate(conds):
